@@ -36,6 +36,8 @@ type c08Input struct {
 	// Hyph: every Hyph-th word with at least 4 ASCII letters is broken over two lines with a hyphen (ASCII or one of
 	// the typographic ones, in turn) and 0-8 blanks of indentation in front of the remainder (0 = off).
 	Hyph int `json:"hyph,omitempty"`
+	// CRLF: every line feed of the finished input is preceded by a carriage return.
+	CRLF bool `json:"crlf,omitempty"`
 	// TruncLen (with TruncEnd): multi-byte letters are put in front so that the input is exactly this many bytes
 	// long (lengths around one read chunk: what lies one chunk before the cut-off tail is a continuation byte).
 	TruncLen int `json:"trunclen,omitempty"`
@@ -100,6 +102,9 @@ func (in c08Input) build(cl *Classifier) []byte {
 		}
 		return b
 	}
+	if in.CRLF {
+		b = bytes.Replace(bytes.Replace(b, []byte("\r\n"), []byte("\n"), -1), []byte("\n"), []byte("\r\n"), -1)
+	}
 	if in.LongRun > 0 {
 		n := in.LongRun
 		if n > 200000 {
@@ -155,6 +160,7 @@ func genC08Input(t *rapid.T) c08Input {
 	if lib.IntN(t, 0, 2, "hyph") == 0 {
 		in.Hyph = lib.IntN(t, 3, 60, "hyphN")
 	}
+	in.CRLF = lib.IntN(t, 0, 3, "crlf") == 0
 	n := lib.IntN(t, 0, 8, "ninject")
 	for i := 0; i < n; i++ {
 		in.Inject = append(in.Inject, c08Inj{Pos: lib.IntN(t, 0, 50000, "injPos"), Kind: lib.IntN(t, 0, len(c08Splices)-1, "injKind")})
@@ -283,7 +289,7 @@ func c08FragCheck(ci interface{}) lib.Outcome {
 		cl.Match([]byte("x" + strings.Repeat("é", 700)))
 	}
 	got, err := cl.MatchFrom(&schedReader{data: append([]byte{}, in...), sched: c.Sched, eofWithData: c.EOFWithData, zeroReads: c.ZeroReads})
-	desc := fmt.Sprintf("input %s (typo=%v every=%d inject=%d longrun=%d truncend=%d trunclen=%d hyph=%d, %d bytes)", c.In.X.describe(), c.In.Typo, c.In.Every, len(c.In.Inject), c.In.LongRun, c.In.TruncEnd, c.In.TruncLen, c.In.Hyph, len(in))
+	desc := fmt.Sprintf("input %s (typo=%v every=%d inject=%d longrun=%d truncend=%d trunclen=%d hyph=%d crlf=%v, %d bytes)", c.In.X.describe(), c.In.Typo, c.In.Every, len(c.In.Inject), c.In.LongRun, c.In.TruncEnd, c.In.TruncLen, c.In.Hyph, c.In.CRLF, len(in))
 	if err != nil {
 		return lib.Outcome{Violation: fmt.Sprintf("%s: MatchFrom(schedule %v, eofWithData=%v, zeroReads=%v) returned error %v", desc, c.Sched, c.EOFWithData, c.ZeroReads, err)}
 	}
@@ -450,7 +456,7 @@ func c08SweepInput(cl *Classifier, k int) c08Input {
 	case 0:
 		return c08Input{X: recipe{Segs: []seg{{Kind: "doc", Doc: find("MIT", "License")}}}, Typo: true, Every: 67, Hyph: 9}
 	case 1:
-		return c08Input{X: recipe{Segs: []seg{{Kind: "doc", Doc: find("BSD-3-Clause", "License")}, {Kind: "doc", Doc: find("Apache-2.0", "Header")}}}, Typo: true, Every: 89,
+		return c08Input{X: recipe{Segs: []seg{{Kind: "doc", Doc: find("BSD-3-Clause", "License")}, {Kind: "doc", Doc: find("Apache-2.0", "Header")}}}, Typo: true, Every: 89, Hyph: 7, CRLF: true,
 			Inject: []c08Inj{{Pos: 1019, Kind: 2}, {Pos: 2040, Kind: 1}, {Pos: 700, Kind: 3}}}
 	case 2:
 		return c08Input{X: recipe{Segs: []seg{{Kind: "oov", Words: 9, Lines: 2}, {Kind: "doc", Doc: find("ISC", "License")}}}, Every: 71, Inject: []c08Inj{{Pos: 300, Kind: 4}, {Pos: 1021, Kind: 12}}}
